@@ -121,8 +121,10 @@ def Valid_multilabel_recall_at_fixed_precision (input target : Shp) (num_labels 
 def Valid_binary_auprc := Valid_tasks
 def Valid_binary_binned_auroc := Valid_tasks1
 def Valid_binary_binned_auprc := Valid_tasks
-def Valid_retrieval_precision := Valid_tasks1
-def Valid_retrieval_recall := Valid_tasks1
+/-- `indexes` (class update(), num_queries > 1): one query id per sample, i.e. the input's shape -/
+def Valid_retrieval_precision (input target : Shp) (num_tasks : Int) (indexes : Option Shp) : Bool :=
+  Valid_tasks1 input target num_tasks && weightOk input indexes
+def Valid_retrieval_recall := Valid_retrieval_precision
 def Valid_binary_auroc (input target : Shp) (num_tasks : Int) (weight : Option Shp) : Bool :=
   Valid_tasks1 input target num_tasks && weightOk input weight
 def Valid_ne (input target : Shp) (num_tasks : Int) (weight : Option Shp) : Bool :=
@@ -187,24 +189,18 @@ def patterns_binary_auprc : PatT := [
 def patterns_tasks0 : PatT := [
   ("ndim=0,num_tasks=1", fun i t T => i == t && ndim i == 0 && T == 1)]
 
-def patterns_tasks0_nd : PatT := [
-  ("ndim=0,num_tasks=1", fun i t T => i == t && ndim i == 0 && T == 1),
-  ("ndim>=3,shape[0]=num_tasks", fun i t T => i == t && decide (ndim i ≥ 3) && T != 1 && Int.ofNat (size i 0) == T)]
-
-def patterns_binary_binned_auroc := patterns_tasks0
-def patterns_retrieval_precision : PatT := []
-def patterns_retrieval_recall : PatT := []
+def patterns_binary_binned_auroc : PatT := []
 def patterns_binary_binned_auprc : PatT := []
 
 abbrev PatTW := List (String × (Shp → Shp → Int → Option Shp → Bool))
 def liftW (p : PatT) : PatTW := p.map fun (n, f) => (n, fun i t T w => f i t T && weightOk i w)
 
-def patterns_binary_auroc : PatTW := liftW patterns_tasks0_nd
-def patterns_ne : PatTW := liftW patterns_tasks0
+def patterns_binary_auroc : PatTW := liftW patterns_tasks0
+def patterns_ne : PatTW := []
 
 /-- the helper never looks at `weight` (it is compared with the input later, in `_update`) -/
-def patterns_weighted_calibration : PatTW := liftW patterns_tasks0 ++ [
-  ("weight.shape!=input.shape", fun i t T w => (if T == 1 then decide (ndim i ≤ 1) else Valid_tasks1 i t T) && i == t && !weightOk i w)]
+def patterns_weighted_calibration : PatTW := [
+  ("weight.shape!=input.shape", fun i t T w => Valid_tasks1 i t T && !weightOk i w)]
 
 def patterns_click_through_rate : List (String × (Shp → Option Shp → Int → Bool)) := []
 
@@ -216,8 +212,7 @@ def patterns_r2_score : Pat2 := [
 
 def patterns_auc : PatT := [
   ("x=(n,),y=(1,n)", fun x y T => ndim x == 1 && y == 1 :: x && T == 1 && numel x != 0),
-  ("x=(1,n),y=(n,)", fun x y T => ndim y == 1 && x == 1 :: y && T == 1 && numel y != 0),
-  ("ndim>=3,shape[0]=n_tasks", fun x y T => x == y && decide (ndim x ≥ 3) && Int.ofNat (size x 0) == T && numel x != 0)]
+  ("x=(1,n),y=(n,)", fun x y T => ndim y == 1 && x == 1 :: y && T == 1 && numel y != 0)]
 
 def patterns_wasserstein : List (String × (Shp → Shp → Option Shp → Option Shp → Bool)) := [
   ("x.ndim=0", fun x y xw yw => ndim x == 0 && decide (ndim y ≤ 1) && numel y != 0 && weightOk x xw && weightOk y yw),
@@ -254,8 +249,8 @@ def validTable : List (String × (CallArgs → Bool)) := [
   ("binary_auprc", fun a => Valid_binary_auprc (a.shape "input") (a.shape "target") (a.int "num_tasks")),
   ("binary_binned_auroc", fun a => Valid_binary_binned_auroc (a.shape "input") (a.shape "target") (a.int "num_tasks")),
   ("binary_binned_auprc", fun a => Valid_binary_binned_auprc (a.shape "input") (a.shape "target") (a.int "num_tasks")),
-  ("retrieval_precision", fun a => Valid_retrieval_precision (a.shape "input") (a.shape "target") (a.int "num_tasks")),
-  ("retrieval_recall", fun a => Valid_retrieval_recall (a.shape "input") (a.shape "target") (a.int "num_tasks")),
+  ("retrieval_precision", fun a => Valid_retrieval_precision (a.shape "input") (a.shape "target") (a.int "num_tasks") (a.oshape "indexes")),
+  ("retrieval_recall", fun a => Valid_retrieval_recall (a.shape "input") (a.shape "target") (a.int "num_tasks") (a.oshape "indexes")),
   ("binary_auroc", fun a => Valid_binary_auroc (a.shape "input") (a.shape "target") (a.int "num_tasks") (a.oshape "weight")),
   ("ne", fun a => Valid_ne (a.shape "input") (a.shape "target") (a.int "num_tasks") (a.oshape "weight")),
   ("weighted_calibration", fun a => Valid_weighted_calibration (a.shape "input") (a.shape "target") (a.oshape "weight") (a.int "num_tasks")),
@@ -277,8 +272,6 @@ def gapTable : List (String × (CallArgs → List String)) := [
   ("binary_auprc", fun a => names patterns_binary_auprc (fun p => p (a.shape "input") (a.shape "target") (a.int "num_tasks"))),
   ("binary_binned_auroc", fun a => names patterns_binary_binned_auroc (fun p => p (a.shape "input") (a.shape "target") (a.int "num_tasks"))),
   ("binary_binned_auprc", fun a => names patterns_binary_binned_auprc (fun p => p (a.shape "input") (a.shape "target") (a.int "num_tasks"))),
-  ("retrieval_precision", fun a => names patterns_retrieval_precision (fun p => p (a.shape "input") (a.shape "target") (a.int "num_tasks"))),
-  ("retrieval_recall", fun a => names patterns_retrieval_recall (fun p => p (a.shape "input") (a.shape "target") (a.int "num_tasks"))),
   ("binary_auroc", fun a => names patterns_binary_auroc (fun p => p (a.shape "input") (a.shape "target") (a.int "num_tasks") (a.oshape "weight"))),
   ("ne", fun a => names patterns_ne (fun p => p (a.shape "input") (a.shape "target") (a.int "num_tasks") (a.oshape "weight"))),
   ("weighted_calibration", fun a => names patterns_weighted_calibration (fun p => p (a.shape "input") (a.shape "target") (a.int "num_tasks") (a.oshape "weight"))),
